@@ -60,6 +60,8 @@ func c19Dim(r *fw.Rand) int { return r.Pick(1, 2, 65535, 65536, 640, 1280, r.Ran
 
 func c19Build(r *fw.Rand, n, mask int, hasRes bool) *ref.VLA {
 	v := &ref.VLA{Streams: n, RID: r.Intn(n), HasRes: hasRes}
+	// uniform extremes: whole regions of the encoding that are all zero or all ones (an all-zero tail is data, not padding)
+	mode := r.Intn(16)
 	for s := 0; s < n; s++ {
 		for sp := 0; sp < 4; sp++ {
 			if mask&(1<<uint(4*s+sp)) == 0 {
@@ -69,9 +71,18 @@ func c19Build(r *fw.Rand, n, mask int, hasRes bool) *ref.VLA {
 			ntl := r.Pick(1, 2, 3, 4, r.Range(1, 4))
 			for t := 0; t < ntl; t++ {
 				l.Kbps = append(l.Kbps, c19Bitrate(r))
+				if mode == 2 || mode == 3 {
+					l.Kbps[t] = 0
+				}
 			}
 			if hasRes {
 				l.W, l.H, l.FPS = c19Dim(r), c19Dim(r), r.Pick(0, 1, 30, 60, 255, r.Intn(256))
+				switch mode {
+				case 0, 3:
+					l.W, l.H, l.FPS = 1, 1, 0
+				case 1:
+					l.W, l.H, l.FPS = 65536, 65536, 255
+				}
 			}
 			v.Layers = append(v.Layers, l)
 		}
